@@ -132,4 +132,123 @@ example : (onPacket (newPool 20 500) (exRelay [1])).2 = .deliver ∧
     (onPacket (onPacket (newPool 20 500) (exRelay [1])).1 (exRelay [2])).2 = .dropDuplicate := by
   decide
 
+/-! ### the whole of onPacket (control branch included) and relaying -/
+
+/-- control-protocol packets (protocol id 0) never reach an application callback and never touch
+    the pool, whatever their sub protocol, source, ttl or destination. -/
+theorem control_never_delivered (pool : Pool) (e : Ev) (h : e.protoId = 0) :
+    (onPacketFull pool e).2 ≠ .deliver ∧ (onPacketFull pool e).1 = pool := by
+  unfold onPacketFull
+  cases e.peerHasProto <;> cases hv : (e.protoVer == 0) <;> cases ctlOf e.sub <;> simp [h, hv]
+
+/-- for every other protocol the full function is the application branch, so the complete
+    decision table `deliver_iff` applies to it. -/
+theorem full_deliver_iff (pool : Pool) (e : Ev) :
+    (onPacketFull pool e).2 = .deliver ↔ e.protoId ≠ 0 ∧ (onPacket pool e).2 = .deliver := by
+  unfold onPacketFull
+  by_cases h0 : e.protoId = 0
+  · have := (control_never_delivered pool e h0).1
+    unfold onPacketFull at this
+    simp [h0] at this ⊢
+    cases hp : e.peerHasProto
+    · simp
+    · simp [hp] at this ⊢; exact this
+  · cases hp : e.peerHasProto
+    · simp [h0, onPacket, hp]
+    · simp [h0]
+
+example : (onPacketFull (newPool 20 500)
+    { peerHasProto := true, connNone := false, self := [0], peerId := [1], peerRole := 2,
+      src := [1], dest := destAny, ttl := 0, hasCb := true, hash := 7,
+      protoId := 0, protoVer := 0, sub := 0x0700 }).2 = .control .queryReq := by decide
+
+/-- **delivered once, full onPacket**: same statement as `flood_delivered_once` for the complete
+    function: whatever mixture of control and application packets arrives from whatever peers,
+    a flooded packet with the same hash is handed to the application again only after at least
+    `(nb−1)·bl` other flooded packets were delivered. -/
+theorem flood_delivered_once_full (nb bl : Nat) (h1 : 1 ≤ nb) (h2 : 1 ≤ bl) (p : Pool)
+    (r : Reach nb bl p) (e : Ev) (hoh : e.isOneHop = false)
+    (hd : (onPacketFull p e).2 = .deliver) (es : List Ev) (n : Nat)
+    (hre : redeliverG onPacketFull (onPacketFull p e).1 e.hash es = some n) : (nb - 1) * bl ≤ n := by
+  obtain ⟨wf, e1, e2⟩ := reach_wf nb bl h1 h2 p r
+  rcases onPacketFull_cases p e with ⟨_, hx⟩ | ⟨_, hp, hq⟩
+  · rw [hx hd] at hoh; cases hoh
+  · have hacc := hq.mp hd
+    have hc := (put_flag_iff p e.hash).mp hacc
+    have hs := safe_new p wf e.hash hc
+    rw [e1, e2] at hs
+    rw [hp] at hre
+    exact redeliverG_ge onPacketFull onPacketFull_cases e.hash es (put p e.hash).1 _ n
+      (wf_put p wf e.hash) hs hre
+
+theorem onPacketFull_reach (nb bl : Nat) (p : Pool) (r : Reach nb bl p) (e : Ev) :
+    Reach nb bl (onPacketFull p e).1 := by
+  rcases onPacketFull_cases p e with ⟨hx, _⟩ | ⟨_, hp, _⟩
+  · rw [hx]; exact r
+  · rw [hp]; exact Reach.put p e.hash r
+
+/-- relaying is a consequence of a flooded delivery and nothing else: the node relays only a
+    packet it has just delivered, with ttl 0 and not addressed to a single peer (hence not
+    one-hop), and the receive step is the only place the pool and the callback are touched —
+    the relay itself neither delivers nor changes the pool. -/
+theorem relay_only_after_flood_delivery (n : Node) (frm : Nat) (e : Ev) (isRelay : Bool) :
+    (nodeStep n frm e isRelay).1.pool = (onPacketFull n.pool e).1 ∧
+    (nodeStep n frm e isRelay).2.1 = (onPacketFull n.pool e).2 ∧
+    ((nodeStep n frm e isRelay).2.2 ≠ [] →
+      (onPacketFull n.pool e).2 = .deliver ∧ isRelay = true ∧ e.isOneHop = false) := by
+  refine ⟨rfl, rfl, ?_⟩
+  intro hne
+  unfold nodeStep at hne
+  simp only at hne
+  by_cases hc : (onPacketFull n.pool e).2 = .deliver ∧ relayWanted isRelay e = true
+  · refine ⟨hc.1, ?_, ?_⟩
+    · have := hc.2; unfold relayWanted at this; simp at this; exact this.1.1
+    · have := hc.2; unfold relayWanted at this; simp at this
+      unfold Ev.isOneHop; simp [this.1.2, this.2]
+  · rw [if_neg hc] at hne; exact absurd rfl hne
+
+/-- whom a relayed packet goes to: only connected peers that registered the protocol, never the
+    packet's source, never the peer it was received from, never a peer whose history already
+    contains the hash. -/
+theorem relay_targets_exclude (selfRole : UInt8) (peers : List PeerInfo) (e : Ev) (sender : Bytes)
+    (x : Bytes) (hx : x ∈ relaySend selfRole peers e sender) :
+    ∃ p ∈ peers, p.id = x ∧ p.hasProto = true ∧ p.closed = false ∧
+      p.id ≠ e.src ∧ p.id ≠ sender ∧ e.hash ∉ p.known := by
+  unfold relaySend at hx
+  split at hx
+  · simp at hx
+  · simp only [List.mem_map, List.mem_filter] at hx
+    obtain ⟨p, ⟨⟨hp, hc⟩, hd⟩, rfl⟩ := hx
+    refine ⟨p, hp, rfl, ?_⟩
+    unfold dupToSend at hd
+    simp at hc hd
+    exact ⟨hc.1.1, hc.1.2, hd.1.1, hd.1.2, hd.2⟩
+
+/-- in particular the packet never goes back to the peer that sent it: `nodeStep` records the
+    hash in that peer's history before relaying, and passes it as `sender`. -/
+theorem relay_not_back_to_sender (n : Node) (frm : Nat) (e : Ev) (isRelay : Bool) :
+    e.peerId ∉ (nodeStep n frm e isRelay).2.2 ∧ e.src ∉ (nodeStep n frm e isRelay).2.2 := by
+  unfold nodeStep
+  simp only
+  split
+  · constructor
+    · intro hx
+      obtain ⟨p, _, h1, _, _, _, h5, _⟩ := relay_targets_exclude _ _ e e.peerId _ hx
+      exact h5 h1
+    · intro hx
+      obtain ⟨p, _, h1, _, _, h4, _, _⟩ := relay_targets_exclude _ _ e e.peerId _ hx
+      exact h4 h1
+  · simp
+
+def exPeers : List PeerInfo :=
+  [ { id := [1], connType := ctChildren, hasProto := true, known := [] },
+    { id := [2], connType := ctChildren, hasProto := true, known := [] },
+    { id := [3], connType := ctOther, hasProto := true, known := [7] },
+    { id := [4], connType := ctParent, hasProto := true, known := [] } ]
+
+/-- non-vacuity: a broadcast from source 9 received through child 1 is relayed to child 2 only
+    (not back to 1, not to 3 which already has it, not upwards to the parent 4). -/
+example : (nodeStep { pool := newPool 20 500, selfRole := 0, peers := exPeers } 0 (exRelay [1]) true).2
+    = (.deliver, [[2]]) := by decide
+
 end Goloop.C33
